@@ -334,6 +334,10 @@ def generate(rng, tier: str, i: int, prop: str, nested: bool = False) -> dict:
     if calls and rng.random() < 0.2:
         k = rng.choice(chosen)
         calls.insert(rng.randrange(len(calls) + 1), _gen_call(rng, k, tier))
+    if prop == "C12":
+        for c in calls:
+            if c["op"] == "pix" and rng.random() < 0.15:
+                c["api"]["rows"] = rng.choice(["two", "eight", "ten", "nine_permuted"])
     if rng.random() < 0.12:
         bad = _gen_call(rng, "pix", tier)
         bad["op"] = "pix_bad"
@@ -577,6 +581,11 @@ def apply_calls(sc, sqw, builder, calls: list[dict], inputs: list | None = None)
                 del kw["n_dims"]  # 4 is the documented default
             if api.get("rows_explicit"):
                 kw.update(rows=PIX_ROWS, row_units=ROW_UNITS)  # the defaults, spelled out
+            if api.get("rows"):
+                # another selection of pixel rows (a documented keyword pair): fewer or more than nine
+                sel = {"two": [7, 8], "eight": [0, 1, 2, 3, 4, 5, 7, 8], "ten": [0, 1, 2, 3, 4, 5, 6, 7, 8, 7],
+                       "nine_permuted": [8, 7, 6, 5, 4, 3, 2, 1, 0]}[api["rows"]]
+                kw.update(rows=tuple(PIX_ROWS[j] for j in sel), row_units=tuple(ROW_UNITS[j] for j in sel))
             builder = builder.add_pixel_data(pix, **kw)
         elif op == "pix_bad":
             # a call the builder must refuse; afterwards it must behave as if never made
